@@ -322,6 +322,8 @@ def r23top(ctx: Ctx) -> RuleReport:
             rep.violation(f'{fi.fq}: implicit top is self.triples[0][0]', fi.loc(st),
                           f'the fallback returns {src}: the implicit top is the source of the first triple')
             return rep
+        elif src == 'None':
+            explicit.append(pc)         # judged below: returning None is returning the unset top
         else:
             rep.undecided(f'{fi.fq}: returns the explicit top or the source of the first triple', fi.loc(st), f'returns {src}')
             return rep
@@ -333,6 +335,19 @@ def r23top(ctx: Ctx) -> RuleReport:
     want = bn.mk_and([NOTOP, NONEMPTY])
     known = set(bn.atoms_of(f)) <= {NOTOP[1], NONEMPTY[1]}
     d = bn.equivalent(f, want)
+    if d is not None and set(bn.atoms_of(f)) <= {NOTOP[1], NONEMPTY[1], 'self._top'}:
+        # the explicit top is tested for truthiness: "unset" (None) and "set to something falsy" ('' or 0) are different states
+        wit = None
+        for env in bn.assignments([f, want]):
+            if env.get('self._top') and env.get(NOTOP[1]):
+                continue                                    # a truthy top is not None
+            if not env.get('self._top') and not env.get(NOTOP[1]) and bn.evaluate(f, env) != bn.evaluate(want, env):
+                wit = env
+        if wit is not None:
+            rep.violation(f'{fi.fq}: implicit top exactly when no explicit top is set and triples exist', fi.loc(),
+                          f'the explicit top is tested for truthiness (`if self._top`): a top that IS set but falsy - the variable "" or 0, which the setter accepts because it tests '
+                          f'`is not None` - is treated as unset, and the source of the first triple is returned instead ({bn.show(f)}; expected {bn.show(want)})')
+            return rep
     rep.add(f'{fi.fq}: implicit top exactly when no explicit top is set and triples exist', fi.loc(),
             'ok' if d is None else ('violation' if known else 'undecided'),
             bn.show(f) if d is None else f'the first triple\'s source is returned when {bn.show(f)}; expected {bn.show(want)}; differs for {d}')
@@ -900,3 +915,55 @@ def r123(ctx: Ctx) -> RuleReport:
             return rep
     rep.undecided(key, gi.loc(stores[0]), norm(comp.elt)[:60])
     return rep
+
+
+# ---------------------------------------------------------------------------------------------
+@rule('R130', 'graph union carries the markers of every triple it adds (the loop that copies them ranges over exactly the added triples)')
+def r130(ctx: Ctx) -> RuleReport:
+    rep = RuleReport('R130', r130.title, floor=1)
+    fi = ctx.repo.func(G, 'Graph.__ior__')
+    op = fi.positional[1]
+    las = ctx.cg.local_assigns(fi)
+    set_names = {nm for nm, vals in las.items() if any(isinstance(v, ast.AST) and _is_set_typed(ctx, fi, v) for v in vals)}
+    updates = [n for n in walk_local(fi.node) if isinstance(n, ast.Call) and isinstance(n.func, ast.Attribute) and n.func.attr == 'update'
+               and norm(n.func.value) == 'self.epidata' and n.args and norm(n.args[0]) == f'{op}.epidata']
+    stores = [n for n in walk_local(fi.node) if isinstance(n, ast.Assign) and isinstance(n.targets[0], ast.Subscript) and norm(n.targets[0].value) == 'self.epidata']
+    key = f'{fi.fq}: every added triple brings its markers along'
+    if updates:
+        rep.ok(key, fi.loc(updates[0]), f'{norm(updates[0])} covers every triple of the right operand')
+        return rep
+    if not stores:
+        rep.violation(key, fi.loc(), f'nothing is written to self.epidata: the triples taken over from `{op}` lose their alignments and layout markers')
+        return rep
+    pm = ctx.repo.parent_map(fi.node)
+    for st in stores:
+        lp = next((a for a in _anc_g(pm, st) if isinstance(a, ast.For)), None)
+        if lp is None:
+            rep.undecided(key, fi.loc(st), 'the store is not in a loop')
+            continue
+        it = lp.iter
+        src = norm(it)
+        if src == f'{op}.triples' or (isinstance(it, ast.Name) and it.id not in set_names and any(
+                isinstance(v, (ast.ListComp, ast.GeneratorExp)) and f'{op}.triples' in norm(v) for v in las.get(it.id, []) if isinstance(v, ast.AST))):
+            rep.ok(key, fi.loc(lp), f'loop over {src}')
+        elif isinstance(it, ast.Subscript) and isinstance(it.slice, ast.Slice) and norm(it.value) == 'self.triples':
+            lens = [x for x in ast.walk(it.slice) if isinstance(x, ast.Call) and norm(x.func) == 'len' and x.args and isinstance(x.args[0], ast.Name)]
+            if lens and lens[0].args[0].id in set_names:
+                S = lens[0].args[0].id
+                rep.violation(key, fi.loc(lp), f'the markers are copied for `{src}`: `{S}` is a set, so len({S}) counts the DISTINCT new triples, while the extend before it appends every '
+                              f'occurrence - when `{op}` states one of its new triples twice, the slice is too short and the first added triple(s) get no epidata entry')
+            else:
+                rep.undecided(key, fi.loc(lp), f'loop over {src}')
+        elif isinstance(it, ast.Name) and it.id in set_names:
+            rep.ok(key, fi.loc(lp), f'loop over the set `{it.id}` of new triples (the order of the entries is R13\'s matter)')
+        else:
+            rep.undecided(key, fi.loc(lp), f'loop over {src}')
+    return rep
+
+
+def _anc_g(pm, n):
+    out = []
+    while id(n) in pm:
+        n = pm[id(n)]
+        out.append(n)
+    return out
